@@ -5,3 +5,7 @@ package collect
 // simHeapAlloc is the identity in normal builds; with the verif build tag the
 // simulation harness can substitute the heap reading used by checkAlloc.
 func simHeapAlloc(_ *InMemCollector, v uint64) uint64 { return v }
+
+// outgoingQueueCap is the identity in normal builds; with the verif build tag
+// the simulation harness can shrink the outgoing queue.
+func outgoingQueueCap(_ *InMemCollector, n int) int { return n }
